@@ -3,15 +3,12 @@ mod verif_demo_cfb_2 {
     use super::*;
     // Sectors::get: `self.data.resize((id + 1) * size, 0)` is driven by the sector id alone (a FAT / header field):
     // an EMPTY input makes it allocate and zero-fill (id + 1) * 512 bytes before anything is read (here 10 MB; up to 2 TB for
-    // id = 0xFFFF_FFF9 with 512-byte sectors, 16 TB with 4096-byte sectors)
+    // id = 0xFFFF_FFF9 with 512-byte sectors, 16 TB with 4096-byte sectors); the call then (correctly) fails
     #[test]
     fn verif_demo_cfb_get_allocates_from_sector_id() {
         let mut s = Sectors::new(512, Vec::new());
-        let r = std::panic::catch_unwind(std::panic::AssertUnwindSafe(|| {
-            let mut rd: &[u8] = &[];
-            let _ = s.get(20_000, &mut rd);
-        }));
-        assert!(r.is_err()); // (it then panics: finding cfb_1)
+        let mut rd: &[u8] = &[];
+        assert!(s.get(20_000, &mut rd).is_err());
         assert_eq!(s.data.len(), 20_001 * 512); // 10 MB held for a 0-byte input
     }
 }
